@@ -399,6 +399,7 @@ func (cs *clusterSim) readOnce(n *Node, db string, t *Tape) {
 	var im *Image
 	var pos ltx.Pos
 	var posFile string
+	posMoved := false
 	readPos := func() {
 		pos = d.Pos()
 		if pf, e := n.K.Open(db+"-pos", 0, c.Owner); e == 0 {
@@ -406,6 +407,10 @@ func (cs *clusterSim) readOnce(n *Node, db string, t *Tape) {
 			posFile = strings.TrimSpace(string(b))
 			pf.Close()
 		}
+		// (opening and reading the file are scheduling points: on a node that
+		// is - or for a moment becomes - a WAL-mode primary a commit can land
+		// between the two looks, which a read mark does not prevent)
+		posMoved = d.Pos() != pos
 	}
 	if hdr.WAL {
 		if e := c.WalOpen(); e != 0 {
@@ -438,7 +443,9 @@ func (cs *clusterSim) readOnce(n *Node, db string, t *Tape) {
 		r.Count("reader.skipped.primary-wal")
 		return
 	}
-	if want := fmt.Sprintf("%s/%s", pos.TXID, pos.PostApplyChecksum); posFile != "" && posFile != want {
+	if want := fmt.Sprintf("%s/%s", pos.TXID, pos.PostApplyChecksum); posFile != "" && posFile != want && posMoved {
+		r.Count("reader.pos-moved-during-read")
+	} else if posFile != "" && posFile != want {
 		// A rolled-back transaction may advance the TXID (same image, same
 		// checksum) while readers hold SHARED; anything else is a disagreement.
 		fp, err := ltx.ParsePos(posFile)
